@@ -7,7 +7,7 @@ import itertools
 import json
 
 from ..base import Prop
-from ..common import answer, ev_tuple, mk_event, p_ev, p_list, pulsetime_us
+from ..common import answer, ev_tuple, mk_event, p_ev, p_list, pulsetime_us, warm_up
 
 T0 = 1_600_000_000_000_000  # 2020-09-13T12:26:40Z in microseconds
 U = 500_000  # grid unit of the valid-chain scope: 0.5 s (pulsetimes 0, 0.5, 1 s = 0, 1, 2 units)
@@ -244,7 +244,12 @@ class C10(Prop):
                 t = max(t + MS, nt)
             order = list(range(m))
             rng.shuffle(order)
-            out.append(("random-chain", {"pt": pt, "l": [l[i] for i in order], "tz": [tz[i] for i in order]}))
+            cc = {"pt": pt, "l": [l[i] for i in order], "tz": [tz[i] for i in order]}
+            if rng.random() < 0.08:
+                cc["warm"] = True
+                if rng.random() < 0.5:  # events that carry (distinct) ids, as events read from a bucket do
+                    cc["l"] = [[k + 1] + e[1:] for k, e in enumerate(cc["l"])]
+            out.append(("random-chain", cc))
 
         # 4a. long chains (hundreds to a couple of thousand events), whole-millisecond durations, mostly short gaps
         for m in ([257, 600, 1025] if ctx.quick else [129, 257, 513, 600, 1025, 2049]):
@@ -302,6 +307,10 @@ class C10(Prop):
             if ev_tuple(e) != list(c):
                 raise ValueError(f"case event {c} is not an Event value (timestamps must be whole milliseconds)")
         ref = list(evs)
+        if case.get("warm"):
+            # the same Event objects were flooded before, with other durations and another pulsetime
+            warm_up(lambda: flood(evs, case["pt"] + 4), evs)
+            warm_up(lambda: flood(evs, case["pt"]), evs)
         before = [(ev_tuple(e), e.timestamp.utcoffset(), sorted(e.keys())) for e in evs]
         r = flood(evs, case["pt"])
         out = [ev_tuple(e) for e in r]
